@@ -132,6 +132,7 @@ func c07Extras(c *Ctx) {
 }
 
 func c06Extras(c *Ctx) {
+	bitStringPureRule(c)
 	w := c.W
 	// every entry point that yields Certificate values decodes each certificate into its own wire object
 	scope := fileScope(w, []string{"z/x509.ParseCertificate", "z/x509.ParseCertificates", "z/x509.ParseTBSCertificate"}, "x509/x509.go")
@@ -347,7 +348,12 @@ func issuerSearchRules(c *Ctx) {
 	}
 }
 
-func c10Extras(c *Ctx) { issuerSearchRules(c); candidateSkipRules(c) }
+func c10Extras(c *Ctx) {
+	issuerSearchRules(c)
+	candidateSkipRules(c)
+	// the fix-up reachability rule of C11 is a rule about the graph AddCert builds
+	c.borrow(c11Extras3, func(o *Obligation) bool { return strings.Contains(o.Func, "AddCert") })
+}
 
 // candidateSkipRules: AddCert searches for the issuer of an edge in two places (the scan over the nodes already
 // known under the issuer name, and the fix-up of dangling edges when a node arrives later). The graph is
